@@ -557,7 +557,7 @@ static void bstep_case(int n, int k)
 // (The re-orthogonalisation loop inside expand_basis is entered only when the first projection is inexact, i.e. through rounding:
 // exact arithmetic never takes that path from an exact pre-state.  Variants with a rounding-like perturbation of V were tried -
 // numeric and symbolic, 2^-20 / 2^-30 - and left the solver with algebraic numbers it does not decide within minutes.)
-static void bstep_breakdown_case(int n, int k)
+static void bstep_breakdown_case(int n, int k, bool diagB = false)
 {
     using AOp = ArnoldiOp<Real, MatOp, BMatOp>;
     using Fac = Lanczos<Real, AOp>;
@@ -575,6 +575,19 @@ static void bstep_breakdown_case(int n, int k)
         Linv(j, j) = R(1, 1);
         for (int i = j + 1; i < n; i++)
             Linv(i, j) = -R(1, 2) * Linv(i - 1, j);
+    }
+    if (diagB)
+    {
+        // B = D^2 diagonal, chosen so that ALSO the Euclidean norm of the last frame vector is rational (3 resp. 7/2): a restart
+        // direction normalised in the wrong inner product then stays a rational vector and the broken invariant is decided at once
+        L.setZero();
+        Linv.setZero();
+        for (int i = 0; i < n; i++)
+        {
+            Real d = (n == 3) ? R(i == 0 ? 1 : (i == 1 ? 2 : 4), 4) : R(i == n - 1 ? 4 : 1, 4);
+            L(i, i) = d;
+            Linv(i, i) = R(1, 1) / d;
+        }
     }
     BMatOp bop;
     bop.B = L * L.transpose();
@@ -614,6 +627,8 @@ int main(int argc, char** argv)
     std::vector<sym::Case> cases;
     cases.push_back({"lanczos-bstep-breakdown/n3/k2", []() { bstep_breakdown_case(3, 2); }});
     cases.push_back({"lanczos-bstep-breakdown/n4/k3", []() { bstep_breakdown_case(4, 3); }});
+    cases.push_back({"lanczos-bstep-breakdown/n3/k2/diagB", []() { bstep_breakdown_case(3, 2, true); }});
+    cases.push_back({"lanczos-bstep-breakdown/n4/k3/diagB", []() { bstep_breakdown_case(4, 3, true); }});
     for (int n = 3; n <= 4; n++)
         for (int k = 1; k < n; k++)
             for (const char* bk : {"regular", "zero", "small"})
